@@ -100,7 +100,10 @@ def _mutate_store(ev):
 C04 = dict(
     family="store", trace_module="Trace_EntityStore.tla",
     models=[dict(name="mc_store", module="MC_EntityStore.tla", cfg=dict(quick="MC_EntityStore_3.cfg", thorough="MC_EntityStore_3.cfg"),
-                 cases=_store_case, limit=dict(quick=9000, thorough=None))],
+                 cases=_store_case, limit=dict(quick=9000, thorough=None)),
+            # the implementation's incremental repair of the stored closure refines EntityStore (all hash iteration orders)
+            dict(name="mc_repair", module="MC_EntityStoreRepair.tla", cfg=dict(quick="MC_EntityStoreRepair_4.cfg", thorough="MC_EntityStoreRepair_3.cfg"), workers=8),
+            dict(name="mc_repair4", module="MC_EntityStoreRepair.tla", cfg=dict(quick=None, thorough="MC_EntityStoreRepair_4all.cfg"), workers=8)],
     drive_n=dict(quick=1200, thorough=40000),
     nontrivial=lambda ev: ev.get("ev") == "EsOp",
     key=lambda ev: [ev.get("pre"), ev.get("op"), ev.get("arg")],
@@ -834,8 +837,41 @@ def _hook_traces(kind, trace_module):
     return f
 
 
+def _store_hooks_on_driver(prev):
+    """the harness links cedar-policy-core with the verif-trace hooks: a random-history run with CEDAR_VERIF_TRACE set records, for
+    every store operation, the stage between strip / install and repair_tc and the touched set; Trace_StoreHook judges them with
+    EntityStoreRepair.tla (both tiers)"""
+    def f(fam, tier, wd, seed):
+        import glob, subprocess
+        out = prev(fam, tier, wd, seed) if prev else []
+        hd = os.path.join(wd, "hookdrv")
+        os.makedirs(hd, exist_ok=True)
+        for p in glob.glob(os.path.join(hd, "tr.*")):
+            os.remove(p)
+        n = dict(quick=400, thorough=8000)[tier]
+        env = dict(os.environ, CEDAR_VERIF_TRACE=os.path.join(hd, "tr"))
+        r = subprocess.run([vlib.CONFORM, "drive", "store", str(seed + 7), str(n), os.path.join(hd, "drive.out.ndjson")], env=env,
+                           stdout=subprocess.PIPE, stderr=subprocess.PIPE, text=True)
+        if r.returncode != 0:
+            raise vlib.ToolError("store driver with hooks failed: " + r.stderr[-2000:])
+        tpath = os.path.join(wd, "hookdrv.trace.ndjson")
+        k = 0
+        with open(tpath, "w") as w:
+            for p in sorted(glob.glob(os.path.join(hd, "tr.*"))):
+                for line in open(p):
+                    if '"ev":"EsOp"' in line:
+                        w.write(line)
+                        k += 1
+        vlib.log("store hook events from the driver: %d" % k)
+        if k == 0:
+            raise vlib.ToolError("no store hook events recorded: is the verif-trace feature still wired into the harness?")
+        out.append((tpath, "T:driver(hooks)", "Trace_StoreHook.tla"))
+        return out
+    return f
+
+
 C04["_prev_extra"] = C04.get("extra_traces")
-C04["extra_traces"] = _hook_traces("EsOp", "Trace_StoreHook.tla")
+C04["extra_traces"] = _store_hooks_on_driver(_hook_traces("EsOp", "Trace_StoreHook.tla"))
 C01["_prev_extra"] = C01.get("extra_traces")
 C01["extra_traces"] = _hook_traces("AuthzHook", "Trace_AuthzHook.tla")
 
